@@ -862,6 +862,12 @@ pub fn render_diff_section(f: &FileSpec, rendered: &RenderedFile, ctx: usize, fl
     }
 }
 
+/// The old text of a `Replaced` edit that stands for "the start tag on this line was re-written":
+/// a run of tildes, which shares no character with any generated tag.
+pub fn is_tag_rewrite(old: &str) -> bool {
+    old.len() >= 3 && old.bytes().all(|b| b == b'~')
+}
+
 impl FileDiff {
     /// Every one-line change of an `Insert` section, by rendered line.
     pub fn edits(&self) -> Vec<(usize, LineEdit)> {
